@@ -3,6 +3,7 @@ package main
 import (
 	"fmt"
 	"go/constant"
+	"strings"
 
 	"golang.org/x/tools/go/ssa"
 )
@@ -276,5 +277,62 @@ func c14StoredFormKeys(c *Ctx) {
 	}
 	if n < 2 {
 		c.RoleUnmatched(rule, role, fmt.Sprintf("at least 2 handler functions storing an OpenID Connect session (found %d)", n))
+	}
+}
+
+// C14.R13 — an ID token minted on refresh gets a fresh expiry. GenerateIDToken
+// keeps an expiry the session already carries ("the session pre-sets an
+// expiry"); the refresh handler works on a clone of the stored session, which
+// still holds the expiry (and jti, at_hash, c_hash) written when the previous ID
+// token was generated. The OIDC refresh validate phase therefore clears them
+// before the issue phase runs: every success path resets ExpiresAt to the zero
+// time and clears jti / at_hash / c_hash of the session's ID-token claims.
+func c14RefreshResets(c *Ctx) {
+	const rule, role = "C14.R13", "oidc-refresh"
+	n := 0
+	for _, fn := range c.ValidateFns() {
+		if fnPkgPath(fn) != pkgOpenID || !strings.Contains(recvTypeName(fn), "Refresh") {
+			continue
+		}
+		ex := c.Explore(fn, ExploreConfig{Inline: oidcInline(c)}, "oidc")
+		if !c.complete(ex, rule, role, fn) {
+			continue
+		}
+		n++
+		ok, m := true, 0
+		why := ""
+		var w *Path
+		for _, p := range ex.Paths {
+			if p.Kind != "return" || p.Classify() != ExitSuccess {
+				continue
+			}
+			m++
+			got := map[string]bool{}
+			for _, e := range p.Events {
+				if e.Kind != "store" || len(e.Args) != 2 || !e.Args[0].Mentions(func(s *Term) bool { return s.IsCall(".IDTokenClaims") }) {
+					continue
+				}
+				v := e.Args[1]
+				switch e.Name {
+				case "ExpiresAt":
+					if v.Op == "const" && strings.HasPrefix(v.Name, "zero:") {
+						got["ExpiresAt"] = true
+					}
+				case "JTI", "AccessTokenHash", "CodeHash":
+					if s, isC := v.StrConst(); isC && s == "" {
+						got[e.Name] = true
+					}
+				}
+			}
+			for _, f := range []string{"ExpiresAt", "JTI", "AccessTokenHash", "CodeHash"} {
+				if !got[f] {
+					ok, w, why = false, p, "a success path leaves the previous ID token's "+f+" in the session"
+				}
+			}
+		}
+		c.Check(ok && m > 0, rule, role, fn, "previous-token-claims-cleared", "the OIDC refresh validate phase clears expiry, jti, at_hash and c_hash of the previous ID token before a new one is minted", why, w)
+	}
+	if n == 0 {
+		c.RoleUnmatched(rule, role, "OpenID Connect refresh handler's HandleTokenEndpointRequest")
 	}
 }
